@@ -183,13 +183,13 @@ def gen_spec(rng, fmt, want=None):
 PRE_FRACTION = 0.7
 
 
-def gen_range(rng, n, lo):
+def gen_range(rng, n, lo, min_start=0):
     """A non-empty range a:b inside an axis of length n with at least `lo` elements (or all n, if fewer), and one of the
     ways of writing it as slice(start, stop): normalised, None for an end that coincides with the axis end, negative."""
-    lo = min(lo, n)
-    a = rng.randint(0, n - lo)
+    lo = min(lo, n - min_start)
+    a = rng.randint(min_start, n - lo)
     b = rng.randint(a + lo, n)
-    if rng.random() < 0.25:
+    if rng.random() < 0.25 and not min_start:
         a = 0
     if rng.random() < 0.25:
         b = n
@@ -213,11 +213,13 @@ def gen_pre(rng, spec, want=None):
     if want is not None:
         # stratum (parity of the stored channel count, parity of first + last of the preselected channel range)
         F = spec['F'] = rng.choice([3, 5, 7, 9] if want[0] else [4, 6, 8])
-        keys = rng.choice(['both', 'channels'])
+        keys = 'both'
+        # the first dumps of the capture are dropped and the data set is opened with a time_offset
+        spec['off'] = rng.choice([0.5, 2.0])
     pre = {}
     a, b, c, d = 0, T, 0, F
     if keys in ('both', 'dumps'):
-        (a, b), pre['dumps'] = gen_range(rng, T, 3 if rng.random() < 0.8 else 1)
+        (a, b), pre['dumps'] = gen_range(rng, T, 3 if rng.random() < 0.8 else 1, min_start=1 if want is not None else 0)
     if keys in ('both', 'channels'):
         for _ in range(50):
             (c, d), pre['channels'] = gen_range(rng, F, 2 if rng.random() < 0.85 else 1)
@@ -499,6 +501,14 @@ def wire_selarg(v):
 SKIPPED = []
 
 
+class OpenFailed(Exception):
+    """Writing succeeded but opening the data set (a valid file / a valid preselection) raised."""
+
+    def __init__(self, spec, exc):
+        Exception.__init__(self, repr(exc))
+        self.spec, self.exc = spec, exc
+
+
 def build_fixture(rng, fmt, tries=12, want=None):
     """A fixture of the given format from rng; specs outside C02's vocabulary / frequency grid are skipped."""
     last = None
@@ -509,6 +519,8 @@ def build_fixture(rng, fmt, tries=12, want=None):
         except AssertionError as e:
             last = e
             SKIPPED.append((fmt, repr(e)[:80]))
+        except (IndexError, ValueError, KeyError, TypeError, AttributeError, ZeroDivisionError) as e:
+            raise OpenFailed(spec, e)
     raise RuntimeError('no usable %s observation model in %d tries: %r' % (fmt, tries, last))
 
 
@@ -1120,6 +1132,19 @@ def open_witness(ctx, w):
 # ---------------------------------------------------------------------------------------------------------------
 # entry points
 
+def report_open_failed(ctx, e, hid):
+    """A written data set of the generated (in-domain) observation model, opened with a valid non-empty preselection
+    or none, must open: nothing can be read from a data set that refuses to."""
+    spec = e.spec
+    pre = spec.get('pre')
+    keys = '+'.join(sorted(pre)) if pre else ('empty' if pre is not None else 'no')
+    ctx.count('open_raises')
+    ctx.disagree('fmt=%s;what=open_raises;preselect=%s;exc=%s' % (spec['fmt'], keys, type(e.exc).__name__),
+                 dict(hid=hid, fail_at=0, spec=spec, ops=['open' + (' preselect=%r' % pre if pre is not None else '')]),
+                 repr(e.exc), 'opens', 'opening the data set (valid file / valid non-empty preselection) raised',
+                 spec='opens')
+
+
 def fixture_plan(ctx):
     """(format, number of data sets, histories per data set)."""
     nf = ctx.scale(5, 30)
@@ -1145,7 +1170,11 @@ def run(ctx):
             # v4: the first data sets of a run cover the four parity strata of (stored channel count, first + last of
             # the preselected channel range); the others are drawn freely (with / without preselection, any keys)
             want = [k & 1, (k >> 1) & 1] if fmt == 'v4' and k < 4 else None
-            fx = build_fixture(random.Random(fseed), fmt, want=want)
+            try:
+                fx = build_fixture(random.Random(fseed), fmt, want=want)
+            except OpenFailed as e:
+                report_open_failed(ctx, e, dict(fmt=fmt, fseed=fseed, hseed=0, nops=0, **(dict(want=want) if want else {})))
+                continue
             ctx.count('datasets=' + fmt)
             if fmt == 'v4':
                 ctx.count('datasets=v4:preselect=%s' % ('+'.join(sorted(fx.pre)) or 'empty' if fx.pre is not None else 'no'))
@@ -1193,7 +1222,10 @@ def replay(ctx, doc):
         return run_witness(ctx, hid['witness'])
     if 'witness' in case:
         return run_witness(ctx, case['witness'])
-    fx = build_fixture(random.Random(hid['fseed']), hid['fmt'], want=hid.get('want'))
+    try:
+        fx = build_fixture(random.Random(hid['fseed']), hid['fmt'], want=hid.get('want'))
+    except OpenFailed as e:
+        return report_open_failed(ctx, e, hid)
     try:
         run_one(ctx, fx, hid['hseed'], hid['nops'], hid)
     finally:
